@@ -390,6 +390,17 @@ func refKey(seed [32]byte, index uint64) ed25519.PrivateKey {
 	return ed25519.NewKeyFromSeed(h[:])
 }
 
+// keyFromSeed is wallet.KeyFromSeed with a panic turned into the all-zero key (reported by the callers'
+// comparison with the documented derivation, and by the oracle keyfromseed-panic at the first site)
+func keyFromSeed(seed *[32]byte, index uint64) (k types.PrivateKey) {
+	defer func() {
+		if recover() != nil {
+			k = make(types.PrivateKey, 64) // no key: the all-zero key never equals a derived one
+		}
+	}()
+	return wallet.KeyFromSeed(seed, index)
+}
+
 // preimageOf finds which candidate byte string the real KeyFromSeed hashes (observation for the
 // model's kdfInput): seed‖LE(i), seed‖BE(i), LE(i)‖seed, BE(i)‖seed.
 func preimageOf(seed [32]byte, index uint64, key types.PrivateKey) string {
@@ -421,8 +432,17 @@ func kdfCase(r *vh.Run, name string, seed [32]byte, indices []uint64, tags ...st
 			break
 		}
 		before := seed
-		k1 := wallet.KeyFromSeed(&seed, i)
-		k2 := wallet.KeyFromSeed(&seed, i)
+		var k1, k2 types.PrivateKey
+		if perr := func() (perr any) {
+			defer func() { perr = recover() }()
+			k1 = wallet.KeyFromSeed(&seed, i)
+			k2 = wallet.KeyFromSeed(&seed, i)
+			return nil
+		}(); perr != nil {
+			c.Op(fmt.Sprintf("kdf %d %s", i, bytesStr(before[:])), "panic")
+			c.Oracle("keyfromseed-panic", "KeyFromSeed(%x, %d) panicked: %v", before, i, perr)
+			continue
+		}
 		c.Op(fmt.Sprintf("kdf %d %s", i, bytesStr(before[:])), preimageOf(before, i, k1))
 		if seed != before {
 			c.Oracle("keyfromseed-mutates-seed", "KeyFromSeed(%x, %d) changed the caller's seed to %x", before, i, seed)
@@ -449,7 +469,7 @@ func kdfCase(r *vh.Run, name string, seed [32]byte, indices []uint64, tags ...st
 		for j := range k1 {
 			k1[j] = 0
 		}
-		if k3 := wallet.KeyFromSeed(&seed, i); !bytes.Equal(k3, want) {
+		if k3 := keyFromSeed(&seed, i); !bytes.Equal(k3, want) {
 			c.Oracle("keyfromseed-result-aliased", "KeyFromSeed(%x, %d): after the caller wiped the key it was given, deriving again returns %x, the first derivation gave %x", seed, i, []byte(k3), want)
 		} else if !bytes.Equal(k2, want) {
 			c.Oracle("keyfromseed-result-aliased", "KeyFromSeed(%x, %d): wiping one returned key changed another returned key to %x", seed, i, []byte(k2))
@@ -662,7 +682,7 @@ func Run(r *vh.Run) {
 			}
 			// keys and addresses from the two renderings agree for a few indices
 			for _, ix := range []uint64{0, 1, rng.U64()} {
-				k1, k2 := wallet.KeyFromSeed(&s1, ix), wallet.KeyFromSeed(&s2, ix)
+				k1, k2 := keyFromSeed(&s1, ix), keyFromSeed(&s2, ix)
 				if !bytes.Equal(k1, k2) || types.StandardUnlockHash(k1.PublicKey()) != types.StandardUnlockHash(k2.PublicKey()) {
 					c := &vh.Case{Name: fmt.Sprintf("ws-%d-key", i), Nontrivial: true, Info: map[string]any{"phrase": phrase}}
 					c.Oracle("whitespace-variant-changes-key", "%q vs %q index %d", phrase, canon, ix)
@@ -772,7 +792,7 @@ func Run(r *vh.Run) {
 			c.Oracle("seedfromphrase-not-blake2b-of-entropy", "%q: %x want %x", phrase, seed, want)
 		}
 		ix := rng.U64()
-		k := wallet.KeyFromSeed(&seed, ix)
+		k := keyFromSeed(&seed, ix)
 		if len(c.Fails) == 0 && !bytes.Equal(k, refKey(want, ix)) {
 			c.Oracle("phrase-to-key-differs-from-documented-derivation", "%q index %d", phrase, ix)
 		}
@@ -799,7 +819,7 @@ func Run(r *vh.Run) {
 				defer wg.Done()
 				for i := w; i < len(jobs); i += workers {
 					s := jobs[i].seed
-					got[i] = wallet.KeyFromSeed(&s, jobs[i].ix)
+					got[i] = keyFromSeed(&s, jobs[i].ix)
 				}
 			}(w)
 		}
